@@ -18,6 +18,14 @@ class RefError(Exception):
     pass
 
 
+class EdgeRec(list):
+    """[src, tgt, edge_type, attrs] with the prefix of the circuit that defines the edge"""
+
+    def __init__(self, items, defined_in=''):
+        super().__init__(items)
+        self.defined_in = defined_in
+
+
 def _walk(circ, prefix=''):
     """yield (node_path, node_type) in declaration order, depth first; and edges with absolute paths."""
     nodes, edges = [], []
@@ -33,7 +41,7 @@ def _walk(circ, prefix=''):
         for k, v in list(attrs.items()):
             if isinstance(v, str) and v != 'source':
                 attrs[k] = prefix + v
-        edges.append([prefix + src, prefix + tgt, et, attrs])
+        edges.append(EdgeRec([prefix + src, prefix + tgt, et, attrs], prefix))
     return nodes, edges
 
 
@@ -65,6 +73,19 @@ class RefModel:
         # update_var style overrides
         for upd in spec.get('updates', []):
             self.apply_update(upd[0], upd[1])
+        # apply(node_values=...) semantics: same addressing, applied on top of everything else
+        for path, value in spec.get('node_values', {}).items():
+            self.apply_update(path, value, var_filter=False)
+        # update_var(edge_vars=[(source, target, {...})]) on the top-level circuit: first edge with that source/target
+        for src, tgt, attrs in spec.get('edge_updates', []):
+            for e in edge_list:
+                # get_edge addresses the edges defined by the circuit update_var is called on (the top level)
+                if e[0] == src and e[1] == tgt and getattr(e, 'defined_in', '') == '':
+                    e[3] = dict(e[3])
+                    e[3].update(attrs)
+                    break
+            else:
+                raise RefError(f'edge update: no edge {src} -> {tgt}')
         # edges
         self.edges = []
         self.chain_states = []    # keys of hidden chain states
@@ -156,9 +177,15 @@ class RefModel:
                 for v, val in extra_over.get(opn, {}).items():
                     self.val[(path, opn, v)] = val
 
-    def apply_update(self, path, value):
+    def apply_update(self, path, value, var_filter=True):
         *node, op, v = path.split('/')
-        targets = [n for n in match_nodes(self.node_order, node) if (n, op, v) in self.kind]
+        if var_filter:
+            targets = [n for n in match_nodes(self.node_order, node) if (n, op, v) in self.kind]
+        else:
+            # node_values: distributed over all nodes matching the node part of the path
+            targets = match_nodes(self.node_order, node)
+            if any((n, op, v) not in self.kind for n in targets):
+                raise RefError(f'node_values path {path} addresses a node without that variable')
         for i, n in enumerate(targets):
             val = value
             if isinstance(value, (list, tuple)) and len(value) == len(targets):
